@@ -37,3 +37,31 @@ impl vstd::std_specs::iter::IteratorSpecImpl for VxArrIter5 {
     open spec fn decrease(&self) -> Option<nat> { Some(vx_arr_remaining(self).len()) }
     open spec fn peek(&self, index: int) -> Option<i32> { if 0 <= index < vx_arr_remaining(self).len() { Some(vx_arr_remaining(self)[index]) } else { None } }
 }
+
+// ---- opaque std / dependency types met by the event reader (behaviour enters only through the specs below) ----
+#[verifier::external_type_specification]
+#[verifier::external_body]
+pub struct ExPath(std::path::Path);
+#[verifier::external_type_specification]
+#[verifier::external_body]
+pub struct ExIoError(std::io::Error);
+#[verifier::external_type_specification]
+#[verifier::external_body]
+pub struct ExPathDisplay<'a>(std::path::Display<'a>);
+#[verifier::external_type_specification]
+#[verifier::external_body]
+pub struct ExSerdeJsonError(serde_json::Error);
+
+// `Path::display` only builds a Display adapter (no effect, cannot fail)
+pub assume_specification<'a> [std::path::Path::display] (p: &'a std::path::Path) -> std::path::Display<'a>;
+
+// Display of these values inside format! does not panic; the produced text is unconstrained (log lines only)
+#[verifier::external_body]
+pub broadcast proof fn axiom_fmt_path_display<'a>() ensures #[trigger] vstd::std_specs::fmt::fmt_req_all::<std::path::Display<'a>>() {}
+#[verifier::external_body]
+pub broadcast proof fn axiom_fmt_io_error() ensures #[trigger] vstd::std_specs::fmt::fmt_req_all::<std::io::Error>() {}
+#[verifier::external_body]
+pub broadcast proof fn axiom_fmt_error() ensures #[trigger] vstd::std_specs::fmt::fmt_req_all::<crate::common::error::Error>() {}
+#[verifier::external_body]
+pub broadcast proof fn axiom_fmt_shared_error() ensures #[trigger] vstd::std_specs::fmt::fmt_req_all::<crate::proxy_agent_shared::error::Error>() {}
+pub broadcast group group_fmt_telemetry { axiom_fmt_path_display, axiom_fmt_io_error, axiom_fmt_error, axiom_fmt_shared_error }
